@@ -95,6 +95,7 @@ struct Blob
   bool intact() const {return w[1] == ~w[0] && w[2] == w[0] * 0x9e3779b97f4a7c15ULL && w[3] == (w[0] ^ 0x5555aaaa5555aaaaULL);}
 };
 
-constexpr const char * kName = "dev";   // name given to every check-up in the scenarios
+constexpr const char * kName = "dev";
+constexpr uint64_t kInitialOptionalSeq = (uint64_t)9 << 32;   // value an optional is born with when Plan::a != 0   // name given to every check-up in the scenarios
 
 }  // namespace c19
